@@ -284,3 +284,44 @@ pub fn start_watchdog(budget_s: f64, marker: String) {
 pub fn current_case() -> u64 {
     CASE_ID.load(Ordering::Relaxed)
 }
+
+// ---------------------------------------------------------------- lock discipline
+
+use std::cell::RefCell as LockCell;
+
+thread_local! {
+    static LOCKS_HELD: LockCell<Vec<(usize, bool, &'static std::panic::Location<'static>)>> = const { LockCell::new(Vec::new()) };
+}
+
+/// Installs a thread-local lock-discipline observer on the crate's instrumented RwLock
+/// (cfg cfb_verif) for the single-threaded workloads: a request that is *certain* to
+/// block forever - any request while the same thread holds the write guard, or a write
+/// request while it holds a read guard - panics here, before the real lock call blocks,
+/// so that the defect is reported as a finding instead of stalling the worker at 0% CPU
+/// (which no CPU-time watchdog would ever see).  The hot path only pushes and pops a
+/// (lock id, kind, &Location) triple.
+pub fn install_lock_discipline() {
+    use cfb::verif::{set_lock_observer, LockKind, LockPhase};
+    let _ = set_lock_observer(Box::new(|e| match e.phase {
+        LockPhase::Request => {
+            let conflict = LOCKS_HELD.with(|h| h.borrow().iter().find(|x| x.0 == e.lock_id && (x.1 || e.kind == LockKind::Write)).copied());
+            if let Some((_, was_write, held)) = conflict {
+                let name = |l: &std::panic::Location| format!("{}:{}", l.file().rsplit("src/").next().unwrap_or("?"), enclosing_fn(l.file(), l.line()));
+                panic!("lock discipline: {:?} requested at {} while this thread holds the {} guard taken at {}: the call would block forever", e.kind, name(e.site), if was_write { "write" } else { "read" }, name(held));
+            }
+        }
+        LockPhase::Granted => LOCKS_HELD.with(|h| h.borrow_mut().push((e.lock_id, e.kind == LockKind::Write, e.site))),
+        LockPhase::Released => LOCKS_HELD.with(|h| {
+            let mut h = h.borrow_mut();
+            if let Some(p) = h.iter().rposition(|x| x.0 == e.lock_id && x.1 == (e.kind == LockKind::Write)) {
+                h.remove(p);
+            }
+        }),
+    }));
+}
+
+/// After a caught panic the guards were dropped by unwinding (Released events were
+/// delivered), but be safe: forget whatever the thread-local still lists.
+pub fn lock_discipline_reset() {
+    LOCKS_HELD.with(|h| h.borrow_mut().clear());
+}
